@@ -294,6 +294,31 @@ def runOp (s : Sexp) : String :=
           | .err => "err" | .panic => "panic" | .hang => "hang")
        | _ => "builderr")
     | _, _, _, _, _ => "bad-op"
+  -- C04 for the other decoders: hostile bytes through the descriptor walker and the JSON-any codecs
+  | .list [.atom "deschost", cfgS, td, .atom tag, .atom dataH] =>
+    match parseCfg cfgS, parseTyDef td, parseHexStr tag, parseHex dataH with
+    | some c, some d, some t, some data =>
+      (match buildTop c d t with
+       | .ok ty =>
+         (match descCalls ty data with
+          | .ok cs => "ok " ++ String.intercalate " " (cs.map showOCall)
+          | .err => "err" | .panic => "panic" | .hang => "hang")
+       | _ => "builderr")
+    | _, _, _, _ => "bad-op"
+  | .list [.atom "jhost", .atom kind, .atom dataH] =>
+    match parseHex dataH with
+    | some data =>
+      (match JSONAny.jsonDecodeTop (kind == "obj") data with
+       | .ok r => "ok " ++ showJV r
+       | .err => "err" | .panic => "panic" | .hang => "hang")
+    | none => "bad-op"
+  | .list [.atom "jhostdesc", .atom kind, .atom dataH] =>
+    match parseHex dataH with
+    | some data =>
+      (match JSONAny.jsonDescTop (kind == "obj") data with
+       | .ok cs => "ok " ++ String.intercalate " " (cs.map showJOCall)
+       | .err => "err" | .panic => "panic" | .hang => "hang")
+    | none => "bad-op"
   -- C16: (jrt position V [V2 | xDATA])
   | .list [.atom "jrt", .atom "top", v, .atom dataH] =>
     match parseJV v, parseHex dataH with
